@@ -79,6 +79,38 @@ def oracle(desc, op, exact):
                 bad += 1
                 if bad <= 2:
                     probs.append(('nonlinear', f'op({a} e{i} + {b} e{j}) = {y[:8]} but {a} op(e{i}) + {b} op(e{j}) = {want[:8]}'))
+    # --- the result depends on the input VALUES only, and applying the operator leaves its input alone: leaves of equal shape
+    # and dtype are one and the same array object; the same input object is applied twice; JAX arrays, then NumPy arrays
+    import jax
+    import jax.numpy as jnp
+
+    leaves, treedef = jax.tree.flatten(in_struct)
+    for kind in ('jax', 'numpy'):
+        pool = {}
+        arrs = []
+        for l in leaves:
+            k = (tuple(l.shape), str(l.dtype))
+            if k not in pool:
+                base = (np.arange(int(np.prod(l.shape)) or 1)[: int(np.prod(l.shape))] % 7 + 1.0).reshape(l.shape)
+                pool[k] = jnp.asarray(base, l.dtype) if kind == 'jax' else np.asarray(base).astype(l.dtype)
+            arrs.append(pool[k])
+        x = jax.tree.unflatten(treedef, arrs)
+        saved = [np.array(a, copy=True) for a in arrs]
+        want = M @ P.flat(x)
+        try:
+            y1 = P.flat(P.lib('mv', op.mv, x))
+            y2 = P.flat(P.lib('second mv on the same input object', op.mv, x))
+            after = [np.asarray(a) for a in arrs]
+        except P.LibError as e:
+            if kind == 'numpy':   # NumPy leaves are not promised to be accepted everywhere: only wrong answers count
+                continue
+            probs.append(('repeated-application-raises', f'{e}'))
+            continue
+        rtol = max(ltol, 1e-3 if inexact_solver else 0)
+        if not P.close(y1, want, rtol) or not P.close(y2, want, rtol):
+            probs.append(('depends-on-more-than-the-input-values', f'{kind} leaves, equal leaves being one array object: first application {y1[:6]}, second {y2[:6]}, matrix times input {want[:6]}'))
+        if any(not np.array_equal(a, b, equal_nan=True) for a, b in zip(after, saved)):
+            probs.append(('input-modified', f'{kind} leaves: the input arrays differ after the operator was applied'))
     return probs, bool(np.any(M != 0))
 
 
